@@ -449,6 +449,12 @@ class RefsContainer:
         contents = self.read_loose_ref(refname)
         if not contents:
             contents = self.get_packed_refs().get(refname, None)
+            if not contents:
+                # The two probes are not atomic: a ref that was only packed
+                # may have been rewritten as a loose ref, and its packed
+                # entry dropped by a delete in progress, since the loose
+                # file was looked at.
+                contents = self.read_loose_ref(refname)
         return contents
 
     def read_loose_ref(self, name: Ref) -> bytes | None:
